@@ -100,6 +100,29 @@ func c01Paths(r *rand.Rand, n int) []c01Path {
 	add("only-dotdots", strings.Repeat("../", 200))
 	add("only-dotdots", "/"+strings.Repeat("../", 21000))
 	add("long", "/"+strings.Repeat("a/", 30000))
+	// long paths that collapse to a short one: padding of every size class (just below / at / above 255,
+	// 1024, 4096, 32768 bytes and close to the 65535-byte maximum) in front of, and behind, the escaping part
+	for _, n := range []int{120, 127, 128, 500, 512, 2040, 2047, 2048, 2100, 16000, 16384, 32700} {
+		for _, pad := range []string{"./", "//", "d/../"} {
+			reps := n * 2 / len(pad)
+			if reps*len(pad) > 65400 {
+				reps = 65400 / len(pad)
+			}
+			p := strings.Repeat(pad, reps)
+			if pad == "d/../" {
+				p = strings.ReplaceAll(p, "d/", "dir/")
+				if len(p) > 65400 {
+					p = p[:65400/7*7]
+				}
+			}
+			add("long-collapsing-sibling", "/"+p+"../root-other/x.txt")
+			add("long-collapsing-sibling", "/"+p+"../root-other")
+			add("long-collapsing-far", "/"+p+"../../../../../../../../etc/hostname")
+			add("long-collapsing-behind", "/../root-other/"+p+"x.txt")
+			add("long-collapsing-virtual", "/***DVD***/"+p+"../root-other")
+			add("long-collapsing-inside", "/"+p+"dir/a.txt")
+		}
+	}
 	add("long-name", "/"+strings.Repeat("n", 255))
 	add("long-name", "/../root-other/"+strings.Repeat("n", 255))
 	add("nul", "/../root-other/x.txt\x00")
